@@ -342,11 +342,12 @@ fn is_graph_error(v: &Option<Value>) -> bool {
 
 /// Build the world, put it in the scenario's selection mode, record analyze, drive the run.
 pub fn execute_run(sc: &RunScenario, keep_world: Option<&mut Option<World>>) -> Prepared {
-    execute_run_with(sc, keep_world, false)
+    execute_run_with(sc, keep_world, false, None)
 }
 
 /// `listener`: a healthy `log tail` process (all streams, no filters) is attached for the whole run
-pub fn execute_run_with(sc: &RunScenario, keep_world: Option<&mut Option<World>>, listener: bool) -> Prepared {
+/// `prior`: an earlier invocation on the same repository, driven to its end before the judged run starts
+pub fn execute_run_with(sc: &RunScenario, keep_world: Option<&mut Option<World>>, listener: bool, prior: Option<&RunScript>) -> Prepared {
     let mut w = match World::create(&sc.spec, true) {
         Ok(w) => w,
         Err(e) => return Prepared::Skip(format!("world: {}", e)),
@@ -385,6 +386,12 @@ pub fn execute_run_with(sc: &RunScenario, keep_world: Option<&mut Option<World>>
     }
     let a = w.cli_v(&a_args);
     let (analyze_before, analyze_err) = if a.code == Some(0) { (a.json(), None) } else { (None, a.err_json().or(Some(Value::String(a.err_str())))) };
+    if let Some(ps) = prior {
+        let ptr = crate::rundrv::drive_run(&mut w, "M0", ps, Duration::from_millis(sc.hang_ms));
+        if ptr.hang.is_some() || ptr.result_json().is_none() {
+            return Prepared::Skip("prior_run_did_not_complete(other property)".into());
+        }
+    }
     for ea in &sc.script.env_actions {
         if let crate::rundrv::EnvAct::MakeHelper { rel } = &ea.act {
             use std::os::unix::fs::PermissionsExt;
